@@ -336,6 +336,9 @@ class Run:
             else:
                 unknown_fail.append((key, case, what))
         (VERIF / "replays").mkdir(exist_ok=True)
+        if not self.args.replay:
+            for old in (VERIF / "replays").glob(f"{self.pid}-{self.seed}-*.json"):
+                old.unlink()
         if unknown_fail:
             key, case, what = unknown_fail[0]
             path = VERIF / "replays" / f"{self.pid}-{self.seed}-input.json"
